@@ -3,9 +3,13 @@ a stub has no side effect.
 
 Specification: spec/CincoStubs.tla.  From a schema descriptor (fields of every built-in class,
 typed lists / dicts, nested schemas, config types, virtual fields, instance methods with
-signature descriptors) it computes the abstract stub  [class, nclasses, attrs, ctor, methods]:
-generate_stub / get_method_annotation are transcribed down to parameter-list tokens, which a
-transcription of Python's parameter grammar (ParseParams) reads back; C20_Valid / C20_Complete
+signature descriptors, custom fields with their own storage_type) it computes the abstract stub
+[class, nclasses, attrs, attrok, ctor, methods]: generate_stub / get_method_annotation are
+transcribed down to parameter-list tokens, which a transcription of Python's parameter grammar
+(ParseParams) reads back - an annotation being an expression only if every dotted class name in it
+is made of identifiers, which the "<locals>" in the __qualname__ of a class defined in a function
+body is not (annotation kinds QualKinds: a function-local class and a class nested in a class,
+alone and inside typing / PEP 585 generics and PEP 604 unions); C20_Valid / C20_Complete
 are stated on that result against the descriptor, C20_NoSideEffect / C20_Quiet on the machine
 NewConfig / Touch / GenStub(schema | config | config type) over (schema, heap, stdout).
 
@@ -92,6 +96,29 @@ ANN_SRC = {
     "typevar": "T",
     "config": "Config",
 }
+# classes whose qualified name differs from their name (CincoStubs!QualAnn): kind -> (wrapper, class)
+QUAL_WRAP = {"": "%s", "list": "typing.List[%s]", "opt": "typing.Optional[%s]", "dict": "typing.Dict[str, %s]", "pep585": "list[%s]", "u604": "%s | None"}
+QUAL_CLASS = {"local": "Local", "nested": "Outer.Inner"}
+QUAL_ANN = {w + c: (w, c) for w in QUAL_WRAP for c in QUAL_CLASS}
+ANN_SRC.update({k: QUAL_WRAP[w] % QUAL_CLASS[c] for k, (w, c) in QUAL_ANN.items()})
+STORAGE_KINDS = sorted(QUAL_ANN) + ["class", "listint"]
+# stable names of annotation shapes (used in violation signatures)
+SHAPE_WRAP = {"": "", "list": "generic-of-", "opt": "generic-of-", "dict": "generic-of-", "pep585": "pep585-of-", "u604": "union604-of-"}
+
+
+def make_local():
+    """What a schema factory function does: define a class in its body and use it.  The class's
+    __qualname__ is 'make_local.<locals>.Local'."""
+
+    class Local:
+        pass
+
+    return Local
+
+
+class Outer:
+    class Inner:
+        """A class nested in a class: __qualname__ 'Outer.Inner'."""
 
 
 def write_cfg(path, tier, export):
@@ -116,6 +143,11 @@ class Builder:
         ann_schema.q = cinco.IntField()
         user_id = typing.NewType("UserId", int)
         user_id.__module__ = "stubtypes"
+        local = make_local()
+        for cls in (local, Outer, Outer.Inner):
+            cls.__module__ = "stubtypes"
+        if (local.__name__, local.__qualname__, Outer.Inner.__name__, Outer.Inner.__qualname__) != ("Local", "make_local.<locals>.Local", "Inner", "Outer.Inner"):
+            raise RuntimeError("harness classes do not have the qualified names of CincoStubs!ClassTable")
         self.env = {
             "typing": typing,
             "Widget": widget,
@@ -123,6 +155,8 @@ class Builder:
             "UserId": user_id,
             "T": typing.TypeVar("T"),
             "Config": cinco.Config,
+            "Local": local,
+            "Outer": Outer,
         }
 
     def function(self, key, sig):
@@ -166,6 +200,8 @@ class Builder:
             return getattr(c, SIMPLE[kind])()
         if kind == "appmode":
             return c.ApplicationModeField(create_helpers=bool(f["helpers"]))
+        if kind == "custom":
+            return self.custom_field(f["st"])
         if kind == "virtual":
             return c.VirtualField(lambda cfg: 42)
         if kind == "vsetter":
@@ -188,6 +224,16 @@ class Builder:
         if kind == "ctype":
             return c.make_type(self.schema(f), f["name"], module="cfgtypes")
         raise ValueError("unknown field kind %r" % (kind,))
+
+    def custom_field(self, st):
+        """An instance of a user's Field subclass (itself defined in a function body, as a schema
+        factory would) whose storage_type is the object of annotation kind st."""
+        obj = eval(ANN_SRC[st], dict(self.env))  # noqa: S307 - harness-owned source text
+
+        class CustomField(self.cinco.Field):
+            storage_type = obj
+
+        return CustomField()
 
     def schema(self, d):
         c = self.cinco
@@ -266,7 +312,7 @@ def abstract_stub(text):
     tree = ast.parse(text)
     compile(tree, "<stub>", "exec")  # not executed; also rejects what only the symbol table catches (duplicate parameter names)
     classes = [n for n in tree.body if isinstance(n, ast.ClassDef)]
-    res = {"class": classes[0].name if classes else "", "nclasses": len(classes), "attrs": [], "ctor": {"ok": False, "params": []}, "methods": []}
+    res = {"class": classes[0].name if classes else "", "nclasses": len(classes), "attrs": [], "attrok": False, "ctor": {"ok": False, "params": []}, "methods": []}
     types = {"base": "", "attrs": [], "meths": [], "other_toplevel": sum(1 for n in tree.body if not isinstance(n, (ast.ClassDef, ast.Import, ast.ImportFrom)))}
     if not classes:
         return res, types
@@ -289,6 +335,8 @@ def abstract_stub(text):
                 named = (node.args.posonlyargs + node.args.args)[1:] + node.args.kwonlyargs
                 types["meths"].append({"name": node.name, "ret": _unparse(node.returns), "anns": [[x.arg, _unparse(x.annotation)] for x in named]})
     res["attrs"] = sorted(set(attrs))
+    # every statement of the class body is  NAME ":" expression  or a def
+    res["attrok"] = all(isinstance(n, (ast.FunctionDef, ast.AsyncFunctionDef)) or (isinstance(n, ast.AnnAssign) and isinstance(n.target, ast.Name) and n.value is None) for n in cls.body)
     res["ctor"].pop("dup", None)
     return canon_res(res), types
 
@@ -299,6 +347,7 @@ def canon_res(r):
         "class": r["class"],
         "nclasses": r["nclasses"],
         "attrs": sorted(r["attrs"]),
+        "attrok": r["attrok"],
         "ctor": {"ok": r["ctor"]["ok"], "params": sorted(r["ctor"]["params"])},
         "methods": sorted(
             (
@@ -316,6 +365,115 @@ def canon_types(t):
         "attrs": sorted([list(x) for x in t["attrs"]]),
         "meths": sorted(({"name": m["name"], "ret": m["ret"], "anns": [list(a) for a in m["anns"]]} for m in t["meths"]), key=lambda m: m["name"]),
     }
+
+
+# ------------------------------------------------------------------------- diagnosis
+def ann_shape(a):
+    """Stable name of the shape of an annotation kind."""
+    if a in QUAL_ANN:
+        w, c = QUAL_ANN[a]
+        return "%s%s-class" % (SHAPE_WRAP[w], c)
+    return "ann-%s" % a
+
+
+def field_shape(f):
+    """Stable name of the shape of a field's rendered type."""
+    if f["kind"] == "custom":
+        return ann_shape(f["st"])
+    if f["kind"] in ("list", "dict"):
+        leaves = []
+
+        def walk(g):
+            if g["kind"] == "custom":
+                leaves.append(g["st"])
+            elif g["kind"] == "list":
+                walk(g["item"])
+            elif g["kind"] == "dict":
+                walk(g["keyf"])
+                walk(g["valf"])
+
+        walk(f)
+        classes = {QUAL_ANN[st][1] for st in leaves if st in QUAL_ANN}
+        for c in ("local", "nested"):
+            if c in classes:
+                return "generic-of-%s-class" % c  # ListField / DictField build typing.List[...] / typing.Dict[...]
+    return "field-%s" % f["kind"]
+
+
+class Diagnoser:
+    """Names what makes a stub unparsable.  Used only after ast.parse has rejected a stub (it
+    decides nothing): every top-level field and every annotation of every method of the schema
+    is rendered alone, in a one-declaration probe schema; the declarations whose probe stub is
+    rejected too are the culprits, each with its minimal reproducer."""
+
+    _by_tree = {}
+
+    @classmethod
+    def of(cls, cinco):
+        if id(cinco) not in cls._by_tree:
+            cls._by_tree[id(cinco)] = cls(cinco)
+        return cls._by_tree[id(cinco)]
+
+    def __init__(self, cinco):
+        self.cinco = cinco
+        self.stubs = importlib.import_module("cincoconfig.stubs")
+        self.cache = {}
+
+    def probe(self, fields):
+        key = common.hash_case(fields)
+        if key not in self.cache:
+            desc = {"kind": "schema", "fields": fields}
+            found = None
+            try:
+                with contextlib.redirect_stdout(io.StringIO()):
+                    text = self.stubs.generate_stub(Builder(self.cinco).schema(desc), "Probe")
+                try:
+                    compile(ast.parse(text), "<stub>", "exec")
+                except SyntaxError as exc:
+                    found = {"schema": desc, "call": "generate_stub(schema, 'Probe')", "stub": text, "line": (exc.text or "").rstrip("\n"), "error": "SyntaxError: %s (line %s, column %s)" % (exc.msg, exc.lineno, exc.offset)}
+            except Exception:  # noqa: BLE001 - a probe that raises is not a syntax culprit
+                found = None
+            self.cache[key] = found
+        return self.cache[key]
+
+    def culprits(self, desc):
+        out = []
+
+        def add(shape, site, fields):
+            got = self.probe(fields)
+            if got is not None and not any(c["shape"] == shape and c["site"] == site for c in out):
+                out.append(dict(got, shape=shape, site=site))
+
+        for key, f in desc["fields"]:
+            if f["kind"] != "method":
+                add(field_shape(f), "attribute", [[key, f]])
+                continue
+            params = f["sig"]["params"]
+            for i, p in enumerate(params):
+                if p["a"] == "noann":
+                    continue
+                first = {"n": "cfg", "k": "posonly" if p["k"] == "posonly" else "pos", "d": False, "a": "noann"}
+                ps = [p] if i == 0 else [first, dict(p, n="x" if p["n"] == "cfg" else p["n"])]
+                add(ann_shape(p["a"]), "parameter", [[key, {"kind": "method", "sig": {"params": ps, "ret": "noret"}}]])
+            if f["sig"]["ret"] != "noret":
+                first = {"n": "cfg", "k": "pos", "d": False, "a": "noann"}
+                add(ann_shape(f["sig"]["ret"]), "return", [[key, {"kind": "method", "sig": {"params": [first], "ret": f["sig"]["ret"]}}]])
+        return out
+
+
+def signatures(sig, obs_ev):
+    """One signature per distinct failing annotation shape of an unparsable stub."""
+    shapes = sorted({c["shape"] for c in (obs_ev or {}).get("culprits") or []})
+    if sig == "gen:invalid-syntax" and shapes:
+        return ["%s:%s" % (sig, sh) for sh in shapes]
+    return [sig]
+
+
+def culprit_text(obs_ev, sig):
+    for c in (obs_ev or {}).get("culprits") or []:
+        if sig.endswith(":" + c["shape"]):
+            return " [minimal: %s %s -> %r: %s]" % (c["site"], _short(c["schema"]), c["line"].strip(), c["error"])
+    return ""
 
 
 def settable_keys(desc):
@@ -427,6 +585,7 @@ class World:
                     obs["res"], self.last_types = abstract_stub(text)
                 except SyntaxError as exc:
                     obs = {"out": "invalid-syntax", "detail": "%s: %r" % (exc.msg, (exc.text or "").strip()[:120])}
+                    obs["culprits"] = Diagnoser.of(self.cinco).culprits(self.desc)
         post_schema = snapshot(self.cinco, [self.schema, self.rtype])
         post_heap = snapshot(self.cinco, self.configs)
         obs["extra"] = {"schema": post_schema == self.snap_schema, "heap": post_heap == self.snap_heap}
@@ -524,6 +683,7 @@ def canon_spec_types(t):
 RESERVED = set(keyword.kwlist) | set(getattr(keyword, "softkwlist", [])) | {"self", "None", "True", "False"}
 ALL_ANN = ["noann", "noann", "noann", "int", "int", "listint", "optstr", "class", "fwd", "none", "pep585", "ctype", "callable", "literal", "config"]
 RARE_ANN = ["union604", "newtype", "typevar"]
+QUAL_ANNS = sorted(QUAL_ANN)
 SCALARS = sorted(SIMPLE)
 DYN_KEYS = ["extra", "dyn_b", "wq7"]  # rnd_name() cannot produce these
 
@@ -537,10 +697,32 @@ def rnd_name(rng, taken, forbidden=()):
         return n
 
 
+class Mix(float):
+    """Probability of a rare annotation kind (the float itself) and, .qual, of an annotation /
+    a custom field's storage type over a class whose qualified name differs from its name."""
+
+    qual = 0.0
+
+    def __new__(cls, rare, qual=0.0):
+        self = super().__new__(cls, rare)
+        self.qual = qual
+        return self
+
+
+def qual_of(rare):
+    return getattr(rare, "qual", 0.0)
+
+
 def rnd_ann(rng, rare):
+    if qual_of(rare) and rng.random() < qual_of(rare):
+        return rng.choice(QUAL_ANNS)
     if rng.random() < rare:
         return rng.choice(RARE_ANN)
     return rng.choice(ALL_ANN)
+
+
+def rnd_custom(rng):
+    return {"kind": "custom", "st": rng.choice(STORAGE_KINDS)}
 
 
 def rnd_sig(rng, rare):
@@ -565,26 +747,32 @@ def rnd_sig(rng, rare):
         if params[-1]["n"] in taken:
             params.pop()
     ret = rng.choice(["noret", "noret", "int", "none", "listint", "class", "fwd", "ctype", "optstr", "pep585", "union604", "callable"])
+    if qual_of(rare) and rng.random() < qual_of(rare):
+        ret = rng.choice(QUAL_ANNS)
     return {"params": params, "ret": ret}
 
 
-def rnd_item(rng, depth, tn):
+def rnd_item(rng, depth, tn, qual=0.0):
+    if qual and rng.random() < qual:
+        return rnd_custom(rng)
     r = rng.random()
     if r < 0.15:
         return {"kind": "nofield"}
     if r < 0.6:
         return {"kind": rng.choice(SCALARS)}
     if r < 0.7 and depth < 3:
-        return {"kind": "list", "item": rnd_item(rng, depth + 1, tn)}
+        return {"kind": "list", "item": rnd_item(rng, depth + 1, tn, qual)}
     if r < 0.8:
-        return rnd_dict(rng, depth + 1)
+        return rnd_dict(rng, depth + 1, qual)
     if r < 0.9:
         return rnd_schema(rng, depth + 1, tn, 0.0, width=3)
     return rnd_ctype(rng, depth + 1, tn)
 
 
-def rnd_dict(rng, depth):
+def rnd_dict(rng, depth, qual=0.0):
     def side():
+        if qual and rng.random() < qual:
+            return rnd_custom(rng)
         r = rng.random()
         if r < 0.3:
             return {"kind": "nofield"}
@@ -592,7 +780,7 @@ def rnd_dict(rng, depth):
             return {"kind": rng.choice(SCALARS)}
         if r < 0.93:
             return {"kind": "list", "item": {"kind": rng.choice(SCALARS)}}
-        return rnd_dict(rng, depth + 1)
+        return rnd_dict(rng, depth + 1, qual)
 
     return {"kind": "dict", "keyf": side(), "valf": side()}
 
@@ -609,7 +797,9 @@ def rnd_schema(rng, depth, tn, rare, width=9, forbidden=()):
     for _ in range(rng.randint(0, width)):
         key = rnd_name(rng, taken, forbidden)
         r = rng.random()
-        if r < 0.42:
+        if qual_of(rare) and rng.random() < qual_of(rare):
+            f = rnd_custom(rng)
+        elif r < 0.42:
             f = {"kind": rng.choice(SCALARS)}
         elif r < 0.47:
             f = {"kind": "appmode", "helpers": rng.random() < 0.6}
@@ -618,9 +808,9 @@ def rnd_schema(rng, depth, tn, rare, width=9, forbidden=()):
             if f["helpers"] and any(g["kind"] == "appmode" and g["helpers"] for _, g in fields):
                 f["helpers"] = False
         elif r < 0.57:
-            f = {"kind": "list", "item": rnd_item(rng, depth, tn)}
+            f = {"kind": "list", "item": rnd_item(rng, depth, tn, qual_of(rare))}
         elif r < 0.64:
-            f = rnd_dict(rng, depth)
+            f = rnd_dict(rng, depth, qual_of(rare))
         elif r < 0.72 and depth < 3:
             f = rnd_schema(rng, depth + 1, tn, rare, width=4, forbidden=forbidden)
         elif r < 0.78 and depth < 3:
@@ -641,7 +831,9 @@ def driver(cinco, seed, n_traces):
     traces = []
     for _ in range(n_traces):
         rare = 0.04 if rng.random() < 0.15 else 0.0
-        desc = rnd_schema(rng, 0, [0], rare, forbidden=forbidden)
+        # one trace in five draws from the classes whose qualified name differs from their name
+        mix = Mix(rare, 0.12 if rng.random() < 0.2 else 0.0)
+        desc = rnd_schema(rng, 0, [0], mix, forbidden=forbidden)
         desc["dynamic"] = rng.random() < 0.35
         w = World(cinco, desc)
         events = []
@@ -700,6 +892,8 @@ def family_stats(family):
         elif f["kind"] == "dict":
             walk(f["keyf"])
             walk(f["valf"])
+        elif f["kind"] == "custom":
+            kinds.add("custom-" + f["st"])
         elif f["kind"] == "method":
             for p in f["sig"]["params"][1:]:
                 pkinds.add(p["k"])
@@ -707,6 +901,8 @@ def family_stats(family):
                 if p["d"]:
                     flags.add("default")
             flags.add("ret" if f["sig"]["ret"] != "noret" else "noret")
+            if f["sig"]["ret"] in QUAL_ANN:
+                flags.add("ret-" + f["sig"]["ret"])
 
     for s in family:
         walk(s)
@@ -725,13 +921,9 @@ def run(tier, seed):
     cfg_x = os.path.join(d, "mc_stubs_%s_export.cfg" % tier)
     write_cfg(cfg_x, tier, export=True)
     keep = ("INIT", "EDGE", "FAM", "TYPES")
-    if tier == "quick":
-        res = exp = tlc.run("MC_Stubs.tla", cfg_x, workers=1, keep=keep)
-    else:
-        cfg = os.path.join(d, "mc_stubs_%s.cfg" % tier)
-        write_cfg(cfg, tier, export=False)
-        res = tlc.run("MC_Stubs.tla", cfg, workers=16, keep=())
-        exp = tlc.run("MC_Stubs.tla", cfg_x, workers=1, keep=keep)
+    # (one run in both tiers: the exporting configuration checks the same invariants and properties
+    # over the same state space - its constraints only print)
+    res = exp = tlc.run("MC_Stubs.tla", cfg_x, workers=1, keep=keep)
     if not res.ok:
         out.violation(
             "spec:%s" % res.violation,
@@ -740,8 +932,9 @@ def run(tier, seed):
         )
     family = exp.printed["FAM"][0]
     kinds, pkinds, anns, flags = family_stats(family)
-    need = set(SIMPLE) | {"appmode", "list", "dict", "schema", "ctype", "virtual", "vsetter", "method", "list-of-schema", "list-of-ctype", "list-of-nofield"}
-    if not (need <= kinds and pkinds == set(PARAM_KINDS.values()) and {"default", "ret", "noret", "dynamic"} <= flags and {"noann", "int", "listint", "class"} <= anns):
+    need = set(SIMPLE) | {"appmode", "list", "dict", "schema", "ctype", "virtual", "vsetter", "method", "list-of-schema", "list-of-ctype", "list-of-nofield", "custom", "list-of-custom"}
+    need |= {"custom-" + st for st in STORAGE_KINDS}
+    if not (need <= kinds and pkinds == set(PARAM_KINDS.values()) and {"default", "ret", "noret", "dynamic"} | {"ret-" + a for a in QUAL_ANN} <= flags and {"noann", "int", "listint", "class"} | set(QUAL_ANN) <= anns):
         raise tlc.TLCError("vacuous family: kinds %s, parameter kinds %s, flags %s" % (sorted(need - kinds), sorted(pkinds), sorted(flags)))
     types = {t["sid"]: canon_spec_types(t["types"]) for t in exp.printed.get("TYPES", [])}
     # 2b. spec -> code: every (state, operation) case of the graph on real objects
@@ -765,15 +958,16 @@ def run(tier, seed):
         sig = next((x for x in sigs if not x.startswith("gen:res")), sigs[0])
         js = m.to_json()
         js["schema"] = family[m.init["sid"] - 1]
-        out.violation(
-            sig,
-            "spec->code: %s on schema #%d %s: %s" % (m.ev.get("op"), m.init["sid"], _short(js["schema"]), m.detail[:300]),
-            js,
-        )
+        for sg in signatures(sig, m.observed["ev"]):
+            out.violation(
+                sg,
+                "spec->code: %s on schema #%d %s: %s%s" % (m.ev.get("op"), m.init["sid"], _short(js["schema"]), m.detail[:300], culprit_text(m.observed["ev"], sg)),
+                js,
+            )
     # 3. code -> spec
     n_traces = 1500 if tier == "quick" else 20000
     traces = driver(cinco, seed, n_traces)
-    slim = [{"init": t["init"], "events": [{k: v for k, v in e.items() if k != "text"} for e in t["events"]]} for t in traces]
+    slim = [{"init": t["init"], "events": [{k: v for k, v in e.items() if k not in ("text", "culprits")} for e in t["events"]]} for t in traces]
     verdicts, tstats = tracecheck.validate("Trace_Stubs.tla", "Trace_Stubs.cfg", slim, batch=2500)
     rejected = [v for v in verdicts if not v.accepted]
     for v in rejected:
@@ -792,9 +986,15 @@ def run(tier, seed):
         js = v.to_json()
         js["schema"] = tr["init"]["schema"]
         js["event"] = e
-        out.violation(sig, "code->spec: recorded trace rejected (%s): %s" % (_short(tr["init"]["schema"]), v.describe()[:400]), js)
+        for sg in signatures(sig, e):
+            out.violation(sg, "code->spec: recorded trace rejected (%s): %s%s" % (_short(tr["init"]["schema"]), v.describe()[:400], culprit_text(e, sg)), js)
     n_events = sum(len(t["events"]) for t in traces)
     n_gen = sum(1 for t in traces for e in t["events"] if e["op"] == "GenStub")
+    qual_traces = 0
+    for t in traces:
+        tk, _, ta, tf = family_stats([t["init"]["schema"]])
+        if any(k.startswith("custom") for k in tk) or ta & set(QUAL_ANN) or any(x.startswith("ret-") for x in tf):
+            qual_traces += 1
     distinct = {common.hash_case([t["init"]["schema"], e["op"], e.get("target"), e["heap"]]) for t in traces for e in t["events"]}
     for dr in list(adapter.drift.values())[:5]:
         out.notes.append("MODEL-DRIFT (annotation strings are not part of C20): schema #%d spec %s code %s" % (dr["sid"], dr["spec"], dr["code"]))
@@ -824,17 +1024,20 @@ def run(tier, seed):
         "code_to_spec_rejected": len(rejected),
         "code_to_spec_events": n_events,
         "code_to_spec_genstub_events": n_gen,
+        "code_to_spec_traces_with_qualified_name_classes": qual_traces,
         "code_to_spec_tlc_states": tstats["states"],
         "evaluations": stats["cases"] + n_events,
         "distinct_nontrivial": len(distinct) + stats["cases"],
         "rule": "spec->code: one case per distinct (schema of the family, heap state, operation+arguments) of the TLC graph "
         "(GenStub for a Schema / a Config / a ConfigType, NewConfig, Touch, AddDyn on dynamic schemas); code->spec: seeded random schemas (<= 9 fields per level, "
-        "depth <= 3, every field class, methods with <= 12 parameters of every kind) and call sequences; "
+        "depth <= 3, every field class, methods with <= 12 parameters of every kind; in one trace out of five also custom fields and annotations over a function-local / a nested class, alone and in generics / unions) and call sequences; "
         "distinct = distinct (schema descriptor, operation, target, heap) among driver events + graph cases; trivial = none excluded",
         "samples": [{"spec_to_code_case": sample_case}, {"code_to_spec_trace": traces[0]}],
     }
     out.assumptions = [
         "'syntactically valid' is decided by ast.parse followed by compile() without execution (the abstraction function); the specification's counterpart is the parameter-list grammar ParseParams (token order, no duplicate names)",
+        "an annotation is taken to be an expression iff every dotted class name in it consists of identifiers (CincoStubs!DottedOK: '<locals>' is not one); the fixed text of each annotation kind around the class names is well-formed. The classes are real ones: 'Local' is defined in the body of harness.props.c20.make_local, 'Outer.Inner' is a nested class (their __module__ is set to 'stubtypes'); a custom field is an instance of a Field subclass defined in a method body with that storage_type",
+        "when ast.parse rejects a stub, the signature names the failing annotation shape(s): every field / annotation of the schema is rendered alone in a one-declaration probe schema and the rejected probes are reported (diagnosis only; with no rejected probe the signature is plain gen:invalid-syntax)",
         "field keys, parameter names and class names are identifiers that are not Python keywords and not 'self'; a method's first parameter is positional and receives the configuration",
         "annotation *strings* (typing.List[int], module-qualified class names, dropped annotations of *args/**kwargs, return annotations) are mirrored by the specification but are outside C20: a difference is reported as MODEL-DRIFT in notes, not as a violation",
         "'no side effect' is observed as equality of deep structural snapshots (attribute values and object identities of the schema graph, the config type and every configuration made so far) taken before and after, plus captured sys.stdout; stderr, warnings and the file system are not observed",
@@ -855,7 +1058,18 @@ def orig_keys(desc):
 
 
 def _short(desc):
-    return "{" + ", ".join("%s:%s" % (k, f["kind"]) for k, f in desc["fields"]) + "}"
+    def one(f):
+        if f["kind"] == "custom":
+            return "custom(%s)" % f["st"]
+        if f["kind"] == "list":
+            return "list(%s)" % one(f["item"])
+        if f["kind"] == "dict":
+            return "dict(%s, %s)" % (one(f["keyf"]), one(f["valf"]))
+        if f["kind"] == "method":
+            return "method(%s)->%s" % (", ".join(p["a"] for p in f["sig"]["params"]), f["sig"]["ret"])
+        return f["kind"]
+
+    return "{" + ", ".join("%s:%s" % (k, one(f)) for k, f in desc["fields"]) + "}"
 
 
 def replay_file(rec):
